@@ -1,5 +1,5 @@
 (* C08 — only peers of the same torrent (and expected identity) are served. *)
-From Rdest Require Import Base Consts Wire Manager Handler HandlerProofs.
+From Rdest Require Import Base Consts Wire Manager Handler HandlerProofs TraceProofs.
 Open Scope N_scope.
 
 (* a handshake naming a different info-hash, or a peer id other than the expected one, ends the connection
@@ -29,3 +29,12 @@ Print Assumptions C08_wrong_hash.
 Print Assumptions C08_wrong_id.
 Print Assumptions C08_gate.
 Print Assumptions C08_actions.
+
+(* OVER A CONNECTION'S WHOLE LIFE: the gate (h_hs_done, without which every frame but a handshake ends the task and
+   no piece data is sent: C08_gate, C08_actions) is opened only by a handshake carrying our torrent's info-hash and, when
+   an identity is expected for the address, that identity -- and it then stays open (C20_handshake_stays) *)
+Theorem C08_gate_opens_only_by_valid_handshake : forall sha1 cf disk ovf s ev r s' acts,
+  hstep sha1 cf disk ovf s ev r = HCont s' acts -> h_hs_done s = false -> h_hs_done s' = true ->
+  exists pid, ev = EFrame (Handshake (c_info_hash cf) pid) /\ (forall e, h_peer_id s = Some e -> pid = e).
+Proof. exact gate_opens_only_by_valid_handshake. Qed.
+Print Assumptions C08_gate_opens_only_by_valid_handshake.
